@@ -636,7 +636,18 @@ func extractStdio(p *pkgs, f *facts) {
 			}
 		}
 		usedCh := map[string]int{}
-		for _, c := range calls(sc.Body, "copyChanStream", false) {
+		// (a connection's copier is started by a `go` statement of ServeConn's own body — once per CONNECTION, not inside
+		// the Once that starts the per-server pumps)
+		var perConn []*ast.CallExpr
+		for _, st := range sc.Body.List {
+			if g, ok := st.(*ast.GoStmt); ok && exprString(g.Call.Fun) == "copyChanStream" {
+				perConn = append(perConn, g.Call)
+			}
+		}
+		if len(perConn) != len(calls(sc.Body, "copyChanStream", false)) {
+			perConn = nil
+		}
+		for _, c := range perConn {
 			if len(c.Args) != 4 {
 				continue
 			}
